@@ -370,7 +370,7 @@ func (x *Exec) specIdent(env *SpecEnv, e *EIdent) Value {
 				}
 				fail("spec: variable %s has no value at this point (%s)", name, x.pos(env.pos))
 			case *types.Const:
-				v, _ := x.constTerm(o.Val(), o.Type())
+				v, _ := x.namedConstTerm(o)
 				return v
 			case *types.Func:
 				return FuncV{T: x.eng.fnConst(o), Obj: o}
